@@ -892,6 +892,38 @@ def _tracked_enums(fn):
     return out
 
 
+def _enum_flow_closure(fn, seed):
+    """locals a tracked variant shape can flow into: plain copies, `Ok(x)` / `Some(x)` wrappers, the ControlFlow that
+    Try::branch makes of it, and payload projections `(x as V).0`."""
+    T = set(seed)
+    if not T:
+        return T
+    changed = True
+    rounds = 0
+    while changed and rounds < 6:
+        changed = False
+        rounds += 1
+        for n in range(fn.argc + 1, len(fn.locals)):
+            if n in T:
+                continue
+            for d in fn.defs().get(n, []):
+                hit = False
+                if d[2] == "assign" and not d[3][3][1]:
+                    rv = d[3][4]
+                    if rv[0] == "use" and rv[1][0] in "cm" and rv[1][1][0] in T and (not rv[1][1][1] or (len(rv[1][1][1]) == 2 and rv[1][1][1][0][0] == "d" and rv[1][1][1][1][0] == "f")):
+                        hit = True
+                    elif rv[0] == "agg" and rv[1] == "adt" and len(rv[3]) == 1 and rv[3][0][0] in "cm" and not rv[3][0][1][1] and rv[3][0][1][0] in T and _variant_index(fn.prog, rv[2]) is not None:
+                        hit = True
+                elif d[2] == "call" and isinstance(d[3][3], dict) and str(d[3][3].get("d", "")).endswith("Try::branch") and len(d[3][4]) == 1 \
+                        and d[3][4][0][0] in "cm" and not d[3][4][0][1][1] and d[3][4][0][1][0] in T:
+                    hit = True
+                if hit:
+                    T.add(n)
+                    changed = True
+                    break
+    return T
+
+
 def _eval_bool_operand(fn, op, known, depth=0):
     if op[0] == "k":
         return op[2] if isinstance(op[2], bool) else None
@@ -974,6 +1006,27 @@ def reach_bool(fn, start, avoid_edges=(), avoid_blocks=(), cap=200000):
     tracked_e = _tracked_enums(fn)
     if not tracked and not tracked_e:
         return fn.reach(start, avoid_edges=avoid_edges, avoid_blocks=avoid_blocks)
+    tracked_e = _enum_flow_closure(fn, tracked_e)
+
+    def val_of(op, known, depth=0):
+        """known variant shape ('v', index, payload shape or None) of an operand, else None"""
+        if op[0] not in "cm" or op[1][1] or depth > 4:
+            return None
+        l = op[1][0]
+        if l in known:
+            kv = known[l]
+            return kv if isinstance(kv, tuple) else None
+        if l in tracked_e:
+            return None
+        ds = fn.defs().get(l, [])
+        if len(ds) == 1 and ds[0][2] == "assign" and not ds[0][3][3][1]:
+            rv = ds[0][3][4]
+            if rv[0] == "agg" and rv[1] == "adt" and not rv[3]:
+                idx = _variant_index(fn.prog, rv[2])
+                return ("v", idx, None) if idx is not None else None
+            if rv[0] == "use":
+                return val_of(rv[1], known, depth + 1)
+        return None
     ae2 = set(e for e in avoid_edges if len(e) == 2)
     ae3 = set(e for e in avoid_edges if len(e) == 3)
     ab = set(avoid_blocks)
@@ -1003,14 +1056,36 @@ def reach_bool(fn, start, avoid_edges=(), avoid_blocks=(), cap=200000):
                     known[s[3][0]] = v
             elif s[2] == "=" and not s[3][1] and s[3][0] in tracked_e:
                 rv = s[4]
-                idx = _variant_index(fn.prog, rv[2]) if rv[0] == "agg" and rv[1] == "adt" else None
-                if idx is None:
+                nv = None
+                if rv[0] == "agg" and rv[1] == "adt":
+                    idx = _variant_index(fn.prog, rv[2])
+                    if idx is not None:
+                        nv = ("v", idx, val_of(rv[3][0], known) if len(rv[3]) == 1 else None)
+                elif rv[0] == "use" and rv[1][0] in "cm" and not rv[1][1][1]:
+                    nv = val_of(rv[1], known)                      # `dest = move ret`
+                elif rv[0] == "use" and rv[1][0] in "cm" and len(rv[1][1][1]) == 2 and rv[1][1][1][0][0] == "d" and rv[1][1][1][1][0] == "f":
+                    kv = known.get(rv[1][1][0])                    # `x = (opt as Some).0`: the payload's shape, when known
+                    if isinstance(kv, tuple) and kv[0] == "v" and len(kv) > 2 and kv[1] == rv[1][1][1][0][2]:
+                        nv = kv[2]
+                if nv is None:
                     known.pop(s[3][0], None)
                 else:
-                    known[s[3][0]] = ("v", idx)
+                    known[s[3][0]] = nv
         t = fn.term(b)
         if t[2] == "call" and not t[5][1] and (t[5][0] in tracked or t[5][0] in tracked_e):
-            known.pop(t[5][0], None)
+            nv = None
+            if t[5][0] in tracked_e and isinstance(t[3], dict) and str(t[3].get("d", "")).endswith("Try::branch") and len(t[4]) == 1:
+                kv = val_of(t[4][0], known)
+                sty = str(t[3].get("self", ""))
+                if kv is not None:
+                    if "Result<" in sty.split("<", 1)[0] + "<" or sty.startswith(("std::result::Result", "Result")):
+                        nv = ("v", 0, kv[2] if len(kv) > 2 else None) if kv[1] == 0 else ("v", 1, None)
+                    elif sty.startswith(("std::option::Option", "Option")):
+                        nv = ("v", 0, kv[2] if len(kv) > 2 else None) if kv[1] == 1 else ("v", 1, None)
+            if nv is None:
+                known.pop(t[5][0], None)
+            else:
+                known[t[5][0]] = nv
         only = None
         if t[2] == "switch":
             be = bool_edges(fn, b)
